@@ -396,7 +396,8 @@ def run_shard(shard, tier):
         if not sampled:
             sampled = True
             if only_sa is None or only_sa == L.CART[dimA]:
-                run_int_dtype(res, op, dimA, dimB, tier)
+                for dt in ("int64", "int32", "float32"):
+                    run_int_dtype(res, op, dimA, dimB, tier, dt)
             res.sample({"op": op.key, "sysA": list(sa), "sysB": list(sb) if sb else None, "elements": len(rows_a), "first_row": list(rows_a[0]), "pairings": len(pairings)})
     return res
 
@@ -420,8 +421,23 @@ def _int_rows(system, which):
     return out
 
 
-def run_int_dtype(res: Result, op, dimA, dimB, tier):
-    """integer-typed coordinates (int64 NumPy / Awkward fields, Python ints in objects): same values as the object backend"""
+def run_int_dtype(res: Result, op, dimA, dimB, tier, dtype="int64"):
+    """integer-typed (int64, int32) or single-precision (float32) coordinate fields in NumPy / Awkward arrays holding small
+    integers: same values as the object backend with the same integer coordinates (float32: to 1e-3, gross errors only)"""
+    npdt = {"int64": np.int64, "int32": np.int32, "float32": np.float32}[dtype]
+
+    def near(p, q, is_phi):
+        if dtype != "float32":
+            return angle_close(p, q) if is_phi else fclose(p, q, 200.0)
+        if p != p or q != q:
+            return p != p and q != q
+        if math.isinf(p) or math.isinf(q):
+            return p == q or abs(p) > 1e30 or abs(q) > 1e30
+        d = abs(p - q)
+        if is_phi:
+            d = min(d, abs(d - 2 * math.pi))
+        return d <= 1e-3 * max(1.0, abs(q))
+
     if op.name in ("boost_beta3", "boostCM_of_beta3") or (op.name in ("boost", "boostCM_of") and dimB == 3):
         return  # an integer velocity has |beta| >= 1
     if op.momentum_only:
@@ -435,14 +451,15 @@ def run_int_dtype(res: Result, op, dimA, dimB, tier):
             res.states += 1
             res.evaluations += 1
             names_a = L.field_names(sa)
-            case = {"op": op.key, "sysA": list(sa), "sysB": list(sb) if sb else None, "ba": backend, "dtype": "int64"}
-            cls = f"{op.key}|{backend}|int64"
+            case = {"op": op.key, "sysA": list(sa), "sysB": list(sb) if sb else None, "ba": backend, "dtype": dtype}
+            cls = f"{op.key}|{backend}|{dtype}"
 
             def mk(system, rows):
                 names = L.field_names(system)
                 if backend == "NP":
-                    return vector.array({n: np.array([r[i] for r in rows], dtype=np.int64) for i, n in enumerate(names)})
-                return vector.Array([dict(zip(names, r)) for r in rows])
+                    return vector.array({n: np.array([r[i] for r in rows], dtype=npdt) for i, n in enumerate(names)})
+                arr = ak.Array([dict(zip(names, r)) for r in rows])
+                return vector.Array(arr if dtype == "int64" else ak.values_astype(arr, npdt))
 
             try:
                 va = mk(sa, ra)
@@ -456,7 +473,7 @@ def run_int_dtype(res: Result, op, dimA, dimB, tier):
                     vals, _ = B.scalar_values(r)
                     got = [("num", x) for x in vals]
             except Exception as e:  # noqa: BLE001
-                res.violation(f"raises|{cls}|{type(e).__name__}", f"{op.key} on int64-typed {backend} operands raised {type(e).__name__}: {str(e).strip()[:150]}", case)
+                res.violation(f"raises|{cls}|{type(e).__name__}", f"{op.key} on {dtype}-typed {backend} operands raised {type(e).__name__}: {str(e).strip()[:150]}", case)
                 continue
             ok = len(got) == len(ra)
             for k in range(len(ra)):
@@ -477,16 +494,16 @@ def run_int_dtype(res: Result, op, dimA, dimB, tier):
                         ok = False
                         break
                     for nme, p, q in zip(L.field_names(osys), got[k][2], ost):
-                        if not (angle_close(float(p), float(q)) if nme == "phi" else fclose(float(p), float(q), 200.0)):
+                        if not near(float(p), float(q), nme == "phi"):
                             ok = False
                 else:
                     p, q = got[k][1], ref
                     if op.ret == "bool":
                         ok = ok and bool(p) == bool(q)
                     else:
-                        ok = ok and (angle_close(float(p), float(q)) if op.name in ("phi", "deltaphi") else fclose(float(p), float(q), 200.0))
+                        ok = ok and near(float(p), float(q), op.name in ("phi", "deltaphi"))
             if not ok:
-                res.violation(f"value|{cls}|{L.sysname(sa)}", f"{op.key} on int64-typed {backend} operands differs from the object backend with the same integer coordinates", case)
+                res.violation(f"value|{cls}|{L.sysname(sa)}", f"{op.key} on {dtype}-typed {backend} operands differs from the object backend with the same integer coordinates", case)
             else:
                 res.nontrivial += 1
 
@@ -494,9 +511,9 @@ def run_int_dtype(res: Result, op, dimA, dimB, tier):
 def replay(case):
     res = Result()
     op = BY_KEY[case["op"]]
-    if case.get("dtype") == "int64":
+    if case.get("dtype"):
         sa = tuple(case["sysA"])
-        run_int_dtype(res, op, len(sa) + 1, (len(case["sysB"]) + 1) if case.get("sysB") else None, "quick")
+        run_int_dtype(res, op, len(sa) + 1, (len(case["sysB"]) + 1) if case.get("sysB") else None, "quick", case["dtype"])
         return res
     sa = tuple(case["sysA"])
     sb = tuple(case["sysB"]) if case.get("sysB") else None
